@@ -318,4 +318,40 @@ theorem run_inq_open (a : List Char) : ∀ (args : List (List Char)) (cur : List
       · subst h2; simp [esc, run_cons, step, ih]
       · simp [esc, h1, h2, run_cons, step, ih]
 
+
+/-! ### build constraints -/
+
+theorem blankFields_noblank (t : List Char) : ∀ (cur : List Char), (∀ c ∈ t, isBlankChar c = false) →
+    blankFields cur t = if (cur.isEmpty && t.isEmpty) = true then [] else [cur.reverse ++ t] := by
+  induction t with
+  | nil => intro cur _; cases cur <;> simp [blankFields]
+  | cons c rest ih =>
+    intro cur h
+    have hc : isBlankChar c = false := h c (List.mem_cons_self ..)
+    have hr : ∀ d ∈ rest, isBlankChar d = false := fun d hd => h d (List.mem_cons_of_mem _ hd)
+    rw [blankFields]; simp only [hc, Bool.false_eq_true, if_false]
+    rw [ih (c :: cur) hr]; simp
+
+theorem splitComma_nocomma (t : List Char) : ∀ (cur : List Char), (∀ c ∈ t, c ≠ ',') →
+    splitComma cur t = [cur.reverse ++ t] := by
+  induction t with
+  | nil => intro cur _; simp [splitComma]
+  | cons c rest ih =>
+    intro cur h
+    have hc : c ≠ ',' := h c (List.mem_cons_self ..)
+    have hr : ∀ d ∈ rest, d ≠ ',' := fun d hd => h d (List.mem_cons_of_mem _ hd)
+    rw [splitComma]; simp only [hc, if_false]
+    rw [ih (c :: cur) hr]; simp
+
+theorem validChar_facts (c : Char) (h : isValidTagChar c = true) : isBlankChar c = false ∧ c ≠ ',' ∧ c ≠ '!' := by
+  refine ⟨?_, ?_, ?_⟩
+  · cases hb : isBlankChar c with
+    | false => rfl
+    | true =>
+      simp only [isBlankChar, Bool.or_eq_true, decide_eq_true_eq] at hb
+      rcases hb with hb | hb <;> (subst hb; exact absurd h (by decide))
+  · intro hc; subst hc; exact absurd h (by decide)
+  · intro hc; subst hc; exact absurd h (by decide)
+
+
 end LlgoVerif.Shell
